@@ -223,6 +223,10 @@ def first_divergence(ops, sut, refs, raw_text=False):
     return d
 
 
+def _aborted(r):
+    return isinstance(r, dict) and isinstance(r.get("exc"), list) and r["exc"][1] == "_AsyncAbort"
+
+
 def _first_divergence(ops, sut, refs):
     cr = creators(ops)
     live = {}
@@ -238,6 +242,11 @@ def _first_divergence(ops, sut, refs):
             continue
         ref = refs[k]
         if ref is None:
+            continue
+        if op.get("abort_at") and _aborted(r) != _aborted(ref):
+            # the asynchronous abort landed in one execution and not in the other (history changes how many lines a
+            # call runs, e.g. a warm per-instance cache): the aborted call's own outcome is not comparable – what it
+            # must not do is leave anything behind, and that is what every later op and audit checks
             continue
         if "operr" in r:
             return {"kind": "operr", "at": k, "sut": r, "ref": ref}
